@@ -34,6 +34,10 @@ type Plan struct {
 	SchedSeed uint64            `json:"schedSeed,omitempty"`
 	LockYield int               `json:"lockYield,omitempty"`
 	Sticky    int               `json:"sticky,omitempty"`
+	// Pct > 0: priority scheduling with Pct-1 priority change points within
+	// the first PctHorizon decisions (see simcore.Sched.Pct)
+	Pct        int `json:"pct,omitempty"`
+	PctHorizon int `json:"pctHorizon,omitempty"`
 }
 
 // Violation is a property violation found by a run.
